@@ -513,6 +513,10 @@ Non-trivial: topo_sort cases with a cycle answer; merge cases with a refused mer
     ctx.assume("topo_sort is only called with distinct node ids and predecessors drawn from the node set (as all in-repo callers do)");
     ctx.assume("SubgraphMerge enemy pairs never contain the same node twice (documented assert)");
     ctx.floor = 500;
+    ctx.extra.insert(
+        "exhaustive_subspace".into(),
+        vcommon::serde_json::json!("topo_sort: all 2^(n*n) digraphs for n<=4 x all n! hand-in orders x 2 predecessor orders; SubgraphMerge: all labelled DAGs n<=3 x all enemy sets x all 3-attempt sequences of ordered pairs, all 543 DAGs on 4 nodes x enemy sets of <=1 (thorough <=2) pairs x all 3-attempt sequences; SubgraphMerge::new on all cyclic digraphs n<=3"),
+    );
 
     // --- topo_sort, exhaustive
     let mut cases: Vec<(usize, u32)> = vec![];
